@@ -366,6 +366,9 @@ def check_fan(run: Run, prog: Program, st: Stream) -> None:
     hs = st.hs
     run.analysed(hs.qual)
     ok, why, pairs = _fanout_ok(st)
+    for _c, f, _b in st.fan_calls:
+        if f.outer is None:
+            run.analysed(f.qual)  # a fan-out promoted to a private method is analysed like the closure
     where = st.fan_calls[0][1] if len(st.fan_calls) == 1 else hs
     run.check(ok, "C20.FAN", where.qual if where is not hs else f"{hs.qual}.<locals>.process_msg",
               "for extractor, senders in pairs: for sender in senders: send(Sample(ts, Quantity(extractor(msg))))",
@@ -486,13 +489,27 @@ def check_atom(run: Run, prog: Program, st: Stream) -> None:
         n = cfg.nodes[nid]
         return n.ast is not None and any(isinstance(c, ast.Call) and pred(c) for part in own_parts(n) for c in ast.walk(part))
 
+    def empty_edge(test: ast.AST) -> str | None:
+        """Label of the branch on which the pool of fan-out tasks is known to be empty."""
+        c = canon(test)
+        for pl in pools:
+            ln = f"len({pl})"
+            if c in (("truthy", pl), ("truthy", ln), ("<", "0", ln), ("<=", "1", ln), ("!=", frozenset({ln, "0"}))):
+                return "false"
+            if c in (("not", ("truthy", pl)), ("not", ("truthy", ln)), ("==", frozenset({ln, "0"})),
+                     ("not", ("<", "0", ln)), ("not", ("<=", "1", ln))):
+                return "true"
+        return None
+
     close_nodes = [n.id for n in cfg.nodes if any_call(n.id, closes)]
     join_nodes = [n.id for n in cfg.nodes if cfg.is_await(n.id) and any_call(n.id, joins)]
+    nothing_in_flight = {(t.id, empty_edge(t.ast)) for t in cfg.nodes if t.kind == "test" and t.ast is not None}
     after = [m for m, lab in cfg.succ[h.id] if lab == "done"]
     wit = None
     for d in after:
         if close_nodes and d not in join_nodes:
-            wit = wit or cfg.path(d, close_nodes, avoid=join_nodes, edge_ok=_normal)
+            wit = wit or cfg.path(d, close_nodes, avoid=join_nodes,
+                                  edge_ok=lambda a, b, lab: _normal(a, b, lab) and (a, lab) not in nothing_in_flight)
     run.check(wit is None, "C20.ATOM", hs.qual, "fan-out tasks in flight are awaited before the channels are closed",
               "when the API stream ends, the channels are closed while fan-out tasks of the last messages may not "
               "have sent yet: those messages are lost for every stream", node=hs.node, file=hs.file,
